@@ -1,6 +1,7 @@
 /-
   C11 — listby/unlist, groupby/ungroup and pivot/unpivot are lossless regroupings.
-  Property theorems only (helper lemmas: PygProofs/Lemmas/JoinLemmas.lean, GroupLemmas.lean).
+  Property theorems only (helper lemmas: PygProofs/Lemmas/JoinLemmas.lean, GroupLemmas.lean,
+  UnlistLemmas.lean, PivotLemmas.lean, UnpivotLemmas.lean).
 
   `keys` are the per-row keys `d[by]` (one tuple per row); key equality is `cmp · · = .eq`
   (numeric equality of ints and floats, `None = None`, `NaN = NaN`: C07 / C02).
@@ -9,6 +10,7 @@ import PygModel.Group
 import PygProofs.Lemmas.GroupLemmas
 import PygProofs.Lemmas.UnlistLemmas
 import PygProofs.Lemmas.PivotLemmas
+import PygProofs.Lemmas.UnpivotLemmas
 
 namespace Pyg.Props.C11
 open Pyg
@@ -27,6 +29,87 @@ theorem listby_distinct (keys : List Val) :
   have he := ((mem_group_iff hg).1 hig).2
   refine ⟨g, hg, he, fun g' hg' he' => ?_⟩
   exact group_unique (listbyG_sorted keys) hg' hg (cmp_eq_trans (cmp_eq_symm he') he)
+
+/-- **exactly one row per distinct key, as a count**: for every row, exactly one group has a key
+`cmp`-equal to the row's key; and (non-empty table) every group's key is the key of one of the rows —
+so the groups are in one-to-one correspondence with the distinct keys (`listby_distinct`: no two groups
+share a key). -/
+theorem listby_one_row_per_key (keys : List Val) :
+    (∀ i, i < keys.length →
+      ((listbyG keys).filter fun g => cmp (keyAt keys i) g.1 == .eq).length = 1) ∧
+    (keys ≠ [] → ∀ g ∈ listbyG keys, ∃ i, i < keys.length ∧ cmp (keyAt keys i) g.1 = .eq) := by
+  constructor
+  · intro i hi
+    obtain ⟨g, hg, hig⟩ := mem_listbyG.2 hi
+    rw [sortedG_filter_eq (listbyG_sorted keys) hg ((mem_group_iff hg).1 hig).2]
+    rfl
+  · intro hne g hg
+    have hn := listbyG_nonempty hne g hg
+    obtain ⟨i, hi⟩ := List.exists_mem_of_ne_nil _ hn
+    exact ⟨i, (mem_group_iff hg).1 hi⟩
+
+/-- **the number of groups = the number of distinct keys**, counted as the rows that are the first
+with their key -/
+theorem listby_count (keys : List Val) (hne : keys ≠ []) :
+    (listbyG keys).length =
+      ((List.range keys.length).filter fun i =>
+        (List.range i).all fun j => cmp (keyAt keys j) (keyAt keys i) != .eq).length := by
+  generalize hF : ((List.range keys.length).filter fun i =>
+        (List.range i).all fun j => cmp (keyAt keys j) (keyAt keys i) != .eq) = F
+  have hperm : F.Perm ((listbyG keys).flatMap fun g =>
+      F.filter fun i => cmp (keyAt keys i) g.1 == .eq) := by
+    apply perm_flatMap_filter (listbyG keys) (fun g i => cmp (keyAt keys i) g.1 == .eq)
+    intro a ha
+    have han : a < keys.length := by rw [← hF] at ha; exact List.mem_range.1 (List.mem_filter.1 ha).1
+    obtain ⟨g, hg, hag⟩ := mem_listbyG.2 han
+    exact sortedG_countP (listbyG_sorted keys) hg ((mem_group_iff hg).1 hag).2
+  have hone : ∀ g ∈ listbyG keys, (F.filter fun i => cmp (keyAt keys i) g.1 == .eq).length = 1 := by
+    intro g hg
+    have hfil : (F.filter fun i => cmp (keyAt keys i) g.1 == .eq) =
+        g.2.filter fun i => (List.range i).all fun j => cmp (keyAt keys j) (keyAt keys i) != .eq := by
+      rw [← hF, group_eq_filter hg, List.filter_filter, List.filter_filter]
+      apply List.filter_congr
+      intro i _
+      exact Bool.and_comm _ _
+    rw [hfil]
+    have hinc := listbyG_increasing keys g hg
+    have hmem : ∀ i, i ∈ g.2 ↔ i < keys.length ∧ cmp (keyAt keys i) g.1 = .eq := fun i => mem_group_iff hg
+    cases hg2 : g.2 with
+    | nil => exact absurd hg2 (listbyG_nonempty hne g hg)
+    | cons h rest =>
+      rw [hg2] at hinc hmem
+      have hp := List.pairwise_cons.1 hinc
+      have hh := (hmem h).1 (by simp)
+      have hfirst : ((List.range h).all fun j => cmp (keyAt keys j) (keyAt keys h) != .eq) = true := by
+        rw [List.all_eq_true]
+        intro j hj
+        have hjh : j < h := List.mem_range.1 hj
+        by_cases hc : cmp (keyAt keys j) (keyAt keys h) = .eq
+        · have : j ∈ h :: rest := (hmem j).2 ⟨by omega, cmp_eq_trans hc hh.2⟩
+          rcases List.mem_cons.1 this with rfl | hjr
+          · omega
+          · have := hp.1 j hjr; omega
+        · simpa using hc
+      have hrest : (rest.filter fun i =>
+          (List.range i).all fun j => cmp (keyAt keys j) (keyAt keys i) != .eq) = [] := by
+        rw [List.filter_eq_nil_iff]
+        intro i hi
+        have hlt := hp.1 i hi
+        have hi' := (hmem i).1 (by simp [hi])
+        have hc : cmp (keyAt keys h) (keyAt keys i) = .eq := cmp_eq_trans hh.2 (cmp_eq_symm hi'.2)
+        simp only [List.all_eq_true, List.mem_range, bne_iff_ne, ne_eq]
+        exact fun hall => hall h hlt hc
+      rw [List.filter_cons, hfirst, hrest]
+      rfl
+  rw [hperm.length_eq, List.length_flatMap]
+  have : (List.map (fun g => (List.filter (fun i => cmp (keyAt keys i) g.1 == .eq) F).length)
+      (listbyG keys)) = (listbyG keys).map fun _ => 1 :=
+    List.map_congr_left hone
+  rw [this]
+  clear this hone hperm
+  induction listbyG keys with
+  | nil => rfl
+  | cons a as ih => simp only [List.map_cons, List.sum_cons, List.length_cons, ← ih]; omega
 
 /-- **original row order inside a group**: the row ids of a group are exactly the rows whose key
 equals the group's key, listed in increasing (= original) order -/
@@ -175,6 +258,25 @@ theorem groupby_all_keys (t : Table) (grp : String) (hn : t.nrows ≠ 0) :
   have hc' : t.cols.isEmpty = false := by cases h : t.cols <;> simp_all
   simp [Table.groupby, hn, hc, hc']
 
+/-- table level: `d.listby(by)` has one row per group, i.e. per distinct key -/
+theorem listby_nrows (t : Table) (by_ : List String) (keys : List Val)
+    (hn : t.nrows ≠ 0) (hb : by_ ≠ []) (hk : t.keysOf (by_.map .col) = .ok keys) :
+    ∃ l, t.listby by_ = .ok l ∧ l.nrows = (listbyG keys).length := by
+  refine ⟨_, listby_table t by_ keys hn hb hk, ?_⟩
+  cases by_ with
+  | nil => exact absurd rfl hb
+  | cons b bs => simp [keyColsOf, VTable.nrows, List.zipIdx_cons]
+
+/-- table level: `d.groupby(by)` has one row (one sub-table) per distinct key -/
+theorem groupby_nrows (t : Table) (by_ : List String) (grp : String) (keys : List Val)
+    (hn : t.nrows ≠ 0) (hb : by_ ≠ []) (hlt : by_.length ≠ t.cols.length)
+    (hk : t.keysOf (by_.map .col) = .ok keys) :
+    ∃ l, t.groupby by_ grp = .ok l ∧ l.nrows = (listbyG keys).length := by
+  refine ⟨_, groupby_table t by_ grp keys hn hb hlt hk, ?_⟩
+  cases by_ with
+  | nil => exact absurd rfl hb
+  | cons b bs => simp [keyColsOf, VTable.nrows, List.zipIdx_cons]
+
 /-! ## pivot / unpivot -/
 
 /-- **pivot, every cell**: for a non-empty table whose `x`, `y`, `z` columns exist (labels renderable
@@ -224,8 +326,9 @@ theorem pivot_row_addressed (t : Table) (x : List String) (y : String) (hn : t.n
 duplicates are aggregated with `last`, the pivot cell addressed by a row's x key and y value holds
 exactly that row's z, and a cell addressed by no row is `None` — so the non-`None` cells that
 `unpivot` lists (`unpivot_rows`: one row per (pivot row, label)) are in one-to-one correspondence
-with the rows of the table (`pivot_row_addressed`, `listby_distinct`).  What is not proved is the
-single multiset equation between `unpivot(pivot(d))` minus its `None` rows and `d`. -/
+with the rows of the table (`pivot_row_addressed`, `listby_distinct`).  (The name is historical: this is
+the cell-value lemma; the single equation between `unpivot(pivot(d))` minus its `None` rows and `d`
+is `unpivot_pivot_multiset` below.) -/
 theorem unpivot_pivot_cells_partial (n nx : Nat) (xp : Nat → List Val) (yc : Nat → Val)
     (zs : List Cell) (hn : n ≠ 0) (hxp : ∀ i, (xp i).length = nx) (gx gy : Grp)
     (hgx : gx ∈ listbyG ((listbyG (xyKeys n xp yc)).map fun g => xPart nx g.1))
@@ -333,6 +436,237 @@ theorem unpivot_rows (p : VTable) (x : List String) (y z : String)
     | none => simp [hf] at this
     | some c => simp [ycols]
 
+/-- **unpivot ∘ pivot, one equation at table level** (unique `(x, y)` pairs, `agg = last`).
+`uRows u x y z` are the rows of `u` as `(x cells, y cell, z cell)` triples, in row order.
+If `d.xyz(x, y, z, last)` succeeds with `p` and `p.unpivot(x, y, z)` with `u`, then the rows of `u`
+whose z is not `None`, *in order*, are the image of a permutation `idx` of the rows of `d` whose z
+is not `None` under `i ↦ (xk i, label i, zᵢ)`, where
+* `xk i` is the x key the pivot table stores for row `i`'s x-group: the x cells of some row `l` of
+  `d` whose x key is `cmp`-equal to row `i`'s (e.g. `1` for `1.0`) — the same for all rows of the group;
+* `label i` is the column label of row `i`'s y value: `yLabel` of the y value of some row `l` whose y
+  is `cmp`-equal to row `i`'s, and two rows have the same label iff their y values are `cmp`-equal.
+Rows of `d` whose z is `None` are indistinguishable, after `pivot`, from absent `(x, y)` cells, hence
+the filter on both sides.  That the y values are renderable (str / int), the labels pairwise distinct
+(no int `1` beside the string `"1"`) and distinct from the `x` names is what `pivot … = some (.ok p)`
+says in the model (`pivot_ok_shape`); `y`, `z` ∉ `x`, `y ≠ z` so that `u` has `x ++ [y, z]` as columns. -/
+theorem unpivot_pivot_multiset (t : Table) (x : List String) (y z : String) (zs : List Cell)
+    (p u : VTable) (hn : t.nrows ≠ 0) (hx : x ≠ [])
+    (hcols : ∀ k ∈ x ++ [y], (t.col? k).isSome = true) (hz : t.col? z = some zs)
+    (hyz : (x ++ [y, z]).Nodup)
+    (huniq : ∀ i j, i < t.nrows → j < t.nrows →
+      cmp (.tuple (xCells t x i)) (.tuple (xCells t x j)) = .eq →
+      cmp (.tuple [yCell t y i]) (.tuple [yCell t y j]) = .eq → i = j)
+    (hp : t.pivot x y z .last = some (.ok p)) (hu : p.unpivot x y z = .ok u) :
+    ∃ (idx : List Nat) (xk : Nat → List Val) (label : Nat → String),
+      idx.Perm ((List.range t.nrows).filter fun i => zs.getD i .none != .none) ∧
+      (uRows u x y z).filter (fun r => !isNoneV r.2.2) =
+        idx.map (fun i => (xk i, Val.cell (.str (label i)), Val.cell (zs.getD i .none))) ∧
+      (∀ i, i < t.nrows → ∃ l, l < t.nrows ∧ xk i = xCells t x l ∧
+        cmp (.tuple (xCells t x i)) (.tuple (xCells t x l)) = .eq) ∧
+      (∀ i j, cmp (.tuple (xCells t x i)) (.tuple (xCells t x j)) = .eq → xk i = xk j) ∧
+      (∀ i, i < t.nrows → ∃ l, l < t.nrows ∧ yLabel (yCell t y l) = some (label i) ∧
+        cmp (.tuple [yCell t y i]) (.tuple [yCell t y l]) = .eq) ∧
+      (∀ i j, i < t.nrows → j < t.nrows →
+        (label i = label j ↔ cmp (.tuple [yCell t y i]) (.tuple [yCell t y j]) = .eq)) := by
+  obtain ⟨hsome, hnd, hpe⟩ := pivot_ok_shape t x y z .last zs p hn hx hcols hz hp
+  have hxp : ∀ i, (xCells t x i).length = x.length := by intro i; simp [xCells]
+  generalize hxyg : listbyG (xyKeys t.nrows (xCells t x) (yCell t y)) = xyg at hsome hnd hpe
+  generalize hxg : listbyG (xyg.map fun g => xPart x.length g.1) = xg at hsome hnd hpe
+  generalize hys : listbyG ((xyg.map fun g => tupleGet x.length g.1).map fun v => Val.tuple [v]) = ys
+    at hsome hnd hpe
+  have hxgs : SortedG xg := by rw [← hxg]; exact listbyG_sorted _
+  have hyss : SortedG ys := by rw [← hys]; exact listbyG_sorted _
+  -- every row has its x-group and its y-group
+  have haddr : ∀ i, i < t.nrows →
+      (∃ gx ∈ xg, cmp (.tuple (xCells t x i)) gx.1 = .eq) ∧
+      (∃ gy ∈ ys, cmp (.tuple [yCell t y i]) gy.1 = .eq) := by
+    intro i hi
+    have := pivot_addresses t.nrows x.length (xCells t x) (yCell t y) hn hxp i hi
+    rw [hxyg, hxg, hys] at this
+    exact this
+  obtain ⟨u', hu', hrows⟩ := unpivot_pivotTable x y z xg ys labOf
+    (fun gx gy => pivotCell xyg x.length zs .last gx.2 gy.1) hx hnd hyz
+  rw [← hpe, hu] at hu'
+  injection hu' with hu'
+  subst hu'
+  obtain ⟨idx, hperm, hcells⟩ := pivot_cells_nonNone t.nrows x.length (xCells t x) (yCell t y) zs hn hxp huniq
+  simp only [hxyg, hxg, hys] at hcells
+  refine ⟨idx, fun i => x.zipIdx.map fun kj => tupleGet kj.2 (groupKeyOf xg (.tuple (xCells t x i))),
+    fun i => labOf (groupKeyOf ys (.tuple [yCell t y i]), []), hperm, ?_, ?_, ?_, ?_, ?_⟩
+  · rw [hrows]
+    have : (xg.flatMap fun gx => ys.map fun gy =>
+          (x.zipIdx.map fun kj => tupleGet kj.2 gx.1, Val.cell (.str (labOf gy)),
+            pivotCell xyg x.length zs .last gx.2 gy.1)) =
+        (xg.flatMap fun gx => ys.map fun gy =>
+          (gx.1, gy.1, pivotCell xyg x.length zs .last gx.2 gy.1)).map
+        fun r => (x.zipIdx.map fun kj => tupleGet kj.2 r.1, Val.cell (.str (labOf (r.2.1, []))), r.2.2) := by
+      rw [List.map_flatMap]
+      apply flatMap_congr'
+      intro gx _
+      rw [List.map_map]
+      rfl
+    rw [this, List.filter_map]
+    have hf : ((fun r : List Val × Val × Val => !isNoneV r.2.2) ∘
+        fun r : Val × Val × Val => (x.zipIdx.map fun kj => tupleGet kj.2 r.1,
+          Val.cell (.str (labOf (r.2.1, []))), r.2.2)) = fun r => !isNoneV r.2.2 := rfl
+    rw [hf, hcells, List.map_map]
+    rfl
+  · intro i hi
+    obtain ⟨⟨gx, hgx, hex⟩, _⟩ := haddr i hi
+    obtain ⟨l, hl, hrep⟩ := xg_key_rep (xCells t x) (yCell t y) hn hxp gx
+      (by rw [hxyg, hxg]; exact hgx)
+    refine ⟨l, hl, ?_, by rw [← hrep]; exact hex⟩
+    simp only
+    rw [groupKeyOf_eq hxgs hgx hex, hrep]
+    exact zipIdx_tupleGet x _ (hxp l)
+  · intro i j hij
+    simp only
+    rw [groupKeyOf_congr xg hij]
+  · intro i hi
+    obtain ⟨_, ⟨gy, hgy, hey⟩⟩ := haddr i hi
+    obtain ⟨l, hl, hrep⟩ := ys_key_rep (xCells t x) (yCell t y) hn hxp gy
+      (by rw [hxyg, hys]; exact hgy)
+    refine ⟨l, hl, ?_, by rw [← hrep]; exact hey⟩
+    simp only
+    rw [groupKeyOf_eq hyss hgy hey]
+    have h1 := hsome gy hgy
+    simp only [labOf]
+    rw [hrep] at h1 ⊢
+    simp only [tupleGet, List.getD_cons_zero] at h1 ⊢
+    cases hl : yLabel (yCell t y l) with
+    | none => simp [hl] at h1
+    | some s => simp
+  · intro i j hi hj
+    obtain ⟨_, ⟨gi, hgi, hei⟩⟩ := haddr i hi
+    obtain ⟨_, ⟨gj, hgj, hej⟩⟩ := haddr j hj
+    simp only
+    rw [groupKeyOf_eq hyss hgi hei, groupKeyOf_eq hyss hgj hej]
+    constructor
+    · intro hlab
+      have : gi = gj := eq_of_nodup_map (List.nodup_append.1 hnd).2.1 gi hgi gj hgj hlab
+      rw [this] at hei
+      exact cmp_eq_trans hei (cmp_eq_symm hej)
+    · intro hc
+      have : gi = gj := group_unique hyss hgi hgj
+        (cmp_eq_trans (cmp_eq_symm hei) (cmp_eq_trans hc hej))
+      rw [this]
+
+/-- **literal form** of `unpivot_pivot_multiset` for tables whose x keys are canonical (`cmp`-equal x
+keys are equal, e.g. no `1` beside `1.0`) and whose y values all have a label (`yLabel`: str, or int
+through `str`): the rows of `unpivot(pivot(d))` with a non-`None` z are, as a multiset, exactly the
+`(x, label(y), z)` triples of the rows of `d` with a non-`None` z. -/
+theorem unpivot_pivot_multiset_canonical (t : Table) (x : List String) (y z : String) (zs : List Cell)
+    (p u : VTable) (lab : Nat → String) (hn : t.nrows ≠ 0) (hx : x ≠ [])
+    (hcols : ∀ k ∈ x ++ [y], (t.col? k).isSome = true) (hz : t.col? z = some zs)
+    (hyz : (x ++ [y, z]).Nodup)
+    (huniq : ∀ i j, i < t.nrows → j < t.nrows →
+      cmp (.tuple (xCells t x i)) (.tuple (xCells t x j)) = .eq →
+      cmp (.tuple [yCell t y i]) (.tuple [yCell t y j]) = .eq → i = j)
+    (hcanon : ∀ i j, i < t.nrows → j < t.nrows →
+      cmp (.tuple (xCells t x i)) (.tuple (xCells t x j)) = .eq → xCells t x i = xCells t x j)
+    (hlab : ∀ i, i < t.nrows → yLabel (yCell t y i) = some (lab i))
+    (hp : t.pivot x y z .last = some (.ok p)) (hu : p.unpivot x y z = .ok u) :
+    ((uRows u x y z).filter fun r => !isNoneV r.2.2).Perm
+      (((List.range t.nrows).filter fun i => zs.getD i .none != .none).map fun i =>
+        (xCells t x i, Val.cell (.str (lab i)), Val.cell (zs.getD i .none))) := by
+  obtain ⟨idx, xk, label, hperm, heq, hxk, _, hlabel, _⟩ :=
+    unpivot_pivot_multiset t x y z zs p u hn hx hcols hz hyz huniq hp hu
+  rw [heq]
+  have : idx.map (fun i => (xk i, Val.cell (.str (label i)), Val.cell (zs.getD i .none))) =
+      idx.map fun i => (xCells t x i, Val.cell (.str (lab i)), Val.cell (zs.getD i .none)) := by
+    apply List.map_congr_left
+    intro i hi
+    have hin : i < t.nrows := List.mem_range.1 (List.mem_filter.1 (hperm.mem_iff.1 hi)).1
+    obtain ⟨l, hl, h1, h2⟩ := hxk i hin
+    obtain ⟨l', hl', h3, h4⟩ := hlabel i hin
+    rw [h1, ← hcanon i l hin hl h2, yLabel_congr h4 (hlab i hin) h3]
+  rw [this]
+  exact hperm.map _
+
+/-- `pivot` and then `unpivot` are defined (in the model) when all y values are strings that are not
+`x` column names — decidable hypotheses, used to show that those of `unpivot_pivot_multiset` are
+satisfiable -/
+theorem unpivot_pivot_defined_str (t : Table) (x : List String) (y z : String) (agg : Agg)
+    (zs : List Cell) (hn : t.nrows ≠ 0) (hx : x ≠ [])
+    (hcols : ∀ k ∈ x ++ [y], (t.col? k).isSome = true) (hz : t.col? z = some zs)
+    (hyz : (x ++ [y, z]).Nodup)
+    (hstr : ∀ i, i < t.nrows → ∃ s, t.jcellAt y i = .str s ∧ s ∉ x) :
+    ∃ p u, t.pivot x y z agg = some (.ok p) ∧ p.unpivot x y z = .ok u := by
+  have hxp : ∀ i, (xCells t x i).length = x.length := by intro i; simp [xCells]
+  have hkey : ∀ gy ∈ listbyG (((listbyG (xyKeys t.nrows (xCells t x) (yCell t y))).map
+      fun g => tupleGet x.length g.1).map fun v => Val.tuple [v]),
+      ∃ s, gy.1 = .tuple [.cell (.str s)] ∧ s ∉ x := by
+    intro gy hgy
+    obtain ⟨l, hl, hrep⟩ := ys_key_rep (xCells t x) (yCell t y) hn hxp gy hgy
+    obtain ⟨s, hs, hsx⟩ := hstr l hl
+    exact ⟨s, by rw [hrep, yCell, hs], hsx⟩
+  have hlabs : ∀ gy ∈ listbyG (((listbyG (xyKeys t.nrows (xCells t x) (yCell t y))).map
+      fun g => tupleGet x.length g.1).map fun v => Val.tuple [v]),
+      yLabel (tupleGet 0 gy.1) = some (labOf gy) := by
+    intro gy hgy
+    obtain ⟨s, hs, _⟩ := hkey gy hgy
+    simp [labOf, hs, tupleGet, yLabel]
+  have hnd : (x ++ (listbyG (((listbyG (xyKeys t.nrows (xCells t x) (yCell t y))).map
+      fun g => tupleGet x.length g.1).map fun v => Val.tuple [v])).map labOf).Nodup := by
+    rw [List.nodup_append]
+    refine ⟨(List.nodup_append.1 hyz).1, ?_, ?_⟩
+    · rw [List.Nodup, List.pairwise_map]
+      apply (listbyG_sorted _).imp_of_mem
+      intro a b ha hb hlt heq
+      obtain ⟨sa, hsa, _⟩ := hkey a ha
+      obtain ⟨sb, hsb, _⟩ := hkey b hb
+      have : sa = sb := by simpa [labOf, hsa, hsb, tupleGet, yLabel] using heq
+      rw [hsa, hsb, this, cmp_self] at hlt
+      cases hlt
+    · intro a ha b hb hab
+      obtain ⟨gy, hgy, rfl⟩ := List.mem_map.1 hb
+      obtain ⟨s, hs, hsx⟩ := hkey gy hgy
+      apply hsx
+      have : labOf gy = s := by simp [labOf, hs, tupleGet, yLabel]
+      rw [← this, ← hab]; exact ha
+  have hp := pivot_cell t x y z agg zs _ hn hx hcols hz (optMapM_some_of_forall hlabs) hnd
+  obtain ⟨_, hnd', hpe⟩ := pivot_ok_shape t x y z agg zs _ hn hx hcols hz hp
+  obtain ⟨u, hu, _⟩ := unpivot_pivotTable x y z _ _ labOf
+    (fun gx gy => pivotCell (listbyG (xyKeys t.nrows (xCells t x) (yCell t y))) x.length zs agg gx.2 gy.1)
+    hx hnd' hyz
+  rw [← hpe] at hu
+  exact ⟨_, u, hp, hu⟩
+
+/-- **unpivot ∘ pivot = identity on the multiset of rows, end to end** under decidable hypotheses:
+a non-empty table with columns `x` (non-empty), `y`, `z` (`x ++ [y, z]` distinct names), unique
+`(x, y)` pairs, canonical x keys (`cmp`-equal ⇒ equal) and string y values that are not `x` column
+names.  Then `d.xyz(x, y, z, last)` and its `unpivot(x, y, z)` are defined, and the rows of the
+result with a non-`None` z are, as a multiset of `(x, y, z)` triples, exactly the rows of `d` with a
+non-`None` z (a string y value is its own label). -/
+theorem unpivot_pivot_multiset_str (t : Table) (x : List String) (y z : String) (zs : List Cell)
+    (hn : t.nrows ≠ 0) (hx : x ≠ [])
+    (hcols : ∀ k ∈ x ++ [y], (t.col? k).isSome = true) (hz : t.col? z = some zs)
+    (hyz : (x ++ [y, z]).Nodup)
+    (huniq : ∀ i j, i < t.nrows → j < t.nrows →
+      cmp (.tuple (xCells t x i)) (.tuple (xCells t x j)) = .eq →
+      cmp (.tuple [yCell t y i]) (.tuple [yCell t y j]) = .eq → i = j)
+    (hcanon : ∀ i j, i < t.nrows → j < t.nrows →
+      cmp (.tuple (xCells t x i)) (.tuple (xCells t x j)) = .eq → xCells t x i = xCells t x j)
+    (hstr : ∀ i, i < t.nrows → ∃ s, t.jcellAt y i = .str s ∧ s ∉ x) :
+    ∃ p u, t.pivot x y z .last = some (.ok p) ∧ p.unpivot x y z = .ok u ∧
+      ((uRows u x y z).filter fun r => !isNoneV r.2.2).Perm
+        ((tRows t x y zs).filter fun r => !isNoneV r.2.2) := by
+  obtain ⟨p, u, hp, hu⟩ := unpivot_pivot_defined_str t x y z .last zs hn hx hcols hz hyz hstr
+  refine ⟨p, u, hp, hu, ?_⟩
+  have hlab : ∀ i, i < t.nrows → yLabel (yCell t y i) = some (t.jcellAt y i).skey := by
+    intro i hi
+    obtain ⟨s, hs, _⟩ := hstr i hi
+    simp [yCell, hs, yLabel, Cell.skey]
+  have h := unpivot_pivot_multiset_canonical t x y z zs p u (fun i => (t.jcellAt y i).skey)
+    hn hx hcols hz hyz huniq hcanon hlab hp hu
+  rw [tRows_filter]
+  refine h.trans (List.Perm.of_eq ?_)
+  apply List.map_congr_left
+  intro i hi
+  have hin : i < t.nrows := List.mem_range.1 (List.mem_filter.1 hi).1
+  obtain ⟨s, hs, _⟩ := hstr i hin
+  simp [yCell, hs, Cell.skey]
+
 /-! ## non-vacuity and evaluation tests -/
 
 def exT : Table := [("a", [.int 2, .flt 4, .int 1, .flt 8, .none]), ("v", [.int 10, .int 11, .int 12, .int 13, .int 14])]
@@ -369,6 +703,61 @@ example : exP.nrows ≠ 0 ∧ (∀ k ∈ ["a"] ++ ["y"], (exP.col? k).isSome = t
     | .ok u => u == [("a", [.cell (.int 1), .cell (.int 1), .cell (.int 2), .cell (.int 2)]),
         ("y", [.cell (.str "p"), .cell (.str "q"), .cell (.str "p"), .cell (.str "q")]),
         ("z", [.cell (.int 40), .cell (.int 20), .cell (.int 30), .cell .none])]
+    | _ => false)
+  | _ => false)
+
+/-- `exP` without its duplicate `(x, y)` row, with a `None` z and an absent `(x, y)` cell -/
+def exQ : Table := [("a", [.int 1, .int 1, .int 2, .int 3]), ("y", [.str "p", .str "q", .str "p", .str "q"]),
+  ("z", [.int 10, .int 20, .none, .int 40])]
+
+/-- the hypotheses of `unpivot_pivot_multiset_str` (hence, by `unpivot_pivot_defined_str`, those of
+`unpivot_pivot_multiset` and `unpivot_pivot_multiset_canonical`) hold on `exQ` -/
+example : exQ.nrows ≠ 0 ∧ ["a"] ≠ [] ∧ (∀ k ∈ ["a"] ++ ["y"], (exQ.col? k).isSome = true) ∧
+    exQ.col? "z" = some [.int 10, .int 20, .none, .int 40] ∧ (["a"] ++ ["y", "z"]).Nodup ∧
+    (∀ i j, i < exQ.nrows → j < exQ.nrows →
+      cmp (.tuple (xCells exQ ["a"] i)) (.tuple (xCells exQ ["a"] j)) = .eq →
+      cmp (.tuple [yCell exQ "y" i]) (.tuple [yCell exQ "y" j]) = .eq → i = j) ∧
+    (∀ i j, i < exQ.nrows → j < exQ.nrows →
+      cmp (.tuple (xCells exQ ["a"] i)) (.tuple (xCells exQ ["a"] j)) = .eq →
+      xCells exQ ["a"] i = xCells exQ ["a"] j) ∧
+    (∀ i, i < exQ.nrows → ∃ s, exQ.jcellAt "y" i = .str s ∧ s ∉ ["a"]) := by
+  have h4 : ∀ i, i < exQ.nrows → i = 0 ∨ i = 1 ∨ i = 2 ∨ i = 3 := by
+    intro i hi; simp [exQ, Table.nrows] at hi; omega
+  refine ⟨by decide, by decide, by decide, rfl, by decide, ?_, ?_, ?_⟩
+  · intro i j hi hj
+    rcases h4 i hi with rfl | rfl | rfl | rfl <;> rcases h4 j hj with rfl | rfl | rfl | rfl <;> decide
+  · intro i j hi hj
+    rcases h4 i hi with rfl | rfl | rfl | rfl <;> rcases h4 j hj with rfl | rfl | rfl | rfl <;> decide
+  · intro i hi
+    rcases h4 i hi with rfl | rfl | rfl | rfl <;> exact ⟨_, rfl, by decide⟩
+
+example : ∃ p u, exQ.pivot ["a"] "y" "z" .last = some (.ok p) ∧ p.unpivot ["a"] "y" "z" = .ok u :=
+  unpivot_pivot_defined_str exQ ["a"] "y" "z" .last [.int 10, .int 20, .none, .int 40]
+    (by decide) (by decide) (by decide) rfl (by decide) (by
+      intro i hi
+      have : i = 0 ∨ i = 1 ∨ i = 2 ∨ i = 3 := by simp [exQ, Table.nrows] at hi; omega
+      rcases this with rfl | rfl | rfl | rfl <;> exact ⟨_, rfl, by decide⟩)
+
+#guard (match exQ.pivot ["a"] "y" "z" .last with
+  | some (.ok p) => (match p.unpivot ["a"] "y" "z" with
+    | .ok u =>
+      uRows u ["a"] "y" "z" ==
+        [([.cell (.int 1)], .cell (.str "p"), .cell (.int 10)), ([.cell (.int 1)], .cell (.str "q"), .cell (.int 20)),
+         ([.cell (.int 2)], .cell (.str "p"), .cell .none), ([.cell (.int 2)], .cell (.str "q"), .cell .none),
+         ([.cell (.int 3)], .cell (.str "p"), .cell .none), ([.cell (.int 3)], .cell (.str "q"), .cell (.int 40))] &&
+      (uRows u ["a"] "y" "z").filter (fun r => !isNoneV r.2.2) ==
+        (tRows exQ ["a"] "y" [.int 10, .int 20, .none, .int 40]).filter (fun r => !isNoneV r.2.2)
+    | _ => false)
+  | _ => false)
+
+/-- int/float-equal x keys (`1` and `1.0`): the pivot table keeps one representative key per x-group,
+which is why `unpivot_pivot_multiset` states the x key up to the group representative -/
+def exR : Table := [("a", [.int 1, .flt 4]), ("y", [.str "p", .str "q"]), ("z", [.int 10, .int 20])]
+
+#guard (match exR.pivot ["a"] "y" "z" .last with
+  | some (.ok p) => (match p.unpivot ["a"] "y" "z" with
+    | .ok u => (uRows u ["a"] "y" "z").map (·.1) == [[.cell (.flt 4)], [.cell (.flt 4)]]
+        || (uRows u ["a"] "y" "z").map (·.1) == [[.cell (.int 1)], [.cell (.int 1)]]
     | _ => false)
   | _ => false)
 
